@@ -16,6 +16,17 @@ The signed payload is  id(ton.blockId) || root_hash || file_hash  and a signer i
 sha256(id(pub.ed25519) || key); both constructor ids are computed by reftl from the bundled schema text
 (ton_api.tl), not taken from the library.
 
+Histories (sub-checks history-*): a case is a PROGRAM of calls, every one judged by the oracle above on the arguments of THAT call.
+  * top-level calls one after the other in one process: validator sets of up to 64 (thorough 128) members that are related to an
+    earlier one - same keys with one weight moved by a multiple of 2**61-1 (equal hash()), by 2**32 / 2**63, by 1, to 0 / 2**64-1,
+    the same weights dealt differently, members reordered, one member replaced / removed / added - with the same signers presented
+    again; the descriptors are fresh objects, a tuple, a generator, or the caller's ONE list updated in place between the calls;
+  * signatures handed over as list / tuple / generator / the caller's own sequence class (__iter__, or __getitem__ only) / list of
+    dict-subclass entries, where the lazy forms run caller code that makes a NESTED check (equal set as fresh objects, the very same
+    list object, a related set, other keys; same or another block; no / all / overlapping / few signers, or failing midway) when the
+    library asks for entry k; afterwards the enclosing call goes on with repeated signers (must be rejected), with further signers up
+    to a supermajority (must be accepted) or just below it (must be rejected). Also nested while a validator generator is read.
+
 Deliberately NOT asserted
   * which exception type a rejection raises, or its message;
   * behaviour for malformed arguments (signatures that are not 64 bytes, node ids that are not hex, keys that are not
@@ -44,7 +55,17 @@ RULE = ('case = (validators: list of (32-byte Ed25519 seed, weight); block id; s
         '{0,1,2,3, random up to 2^62} or engineered so that 3*signed - 2*total is in {-3..3} (exact 2/3 and both sides). '
         'enum-small: n=0..5 validators x 3 weight patterns x every subset of signers x 11 list shapes. '
         'non-trivial = list holds an adversarial element or a repeated signer, or |3*signed - 2*total| <= 3; '
-        'distinct = distinct case')
+        'distinct = distinct case. '
+        'history-* sub-checks: case = program of calls (plain data), each call = (validator set, entries, block, container form of '
+        'the signatures: list/tuple/generator/own sequence class/lazy dict-subclass entries, form of the validators: list/tuple/'
+        'generator/the previous call\'s list edited in place, nested calls fired when the library reads entry k). '
+        'history-related-sets: sizes 4,16,24,32,40,64 x weights ones/ramp x 18 relations of set B to set A (one weight +k*(2^61-1), '
+        '+2^32, +2^63, +1, doubled, 0, 2^64-1; weights swapped/rotated/all doubled; order reversed/rotated; member replaced/dropped/'
+        'added) at the first/last member x 3 signer choices x orders AB, BA, ABA. history-nested: sizes 3,12,24,32,40,64 x 5 lazy '
+        'forms x 6 relations of the nested set x 5 nested signer lists x 5 outer patterns (duplicates after the nested call, '
+        'supermajority completed after it, one short of it, nested first, nested at exhaustion). history-random: 1..6 top-level '
+        'calls over sets of 1..65 members derived by those relations, random signer modes, optional adversarial entry, up to two '
+        'levels of nested calls. non-trivial (history) = at least two calls in the program')
 ASSUMPTIONS = ['PyNaCl Ed25519 signing (deterministic) from generated seeds', 'hashlib.sha256',
                'reftl constructor ids of ton.blockId and pub.ed25519 (anchored: c50b6e70, 4813b4c6)']
 
@@ -583,7 +604,7 @@ MUTATIONS = ('same', 'collide61x1', 'collide61x4', 'collide61x7', 'plus2^32', 'p
              'to-max', 'swap-weights', 'rotate-weights', 'double-all', 'reverse-order', 'rotate-order', 'replace-key',
              'drop-last', 'drop-first', 'add-one')
 SIGNER_MODES = ('light-3/4', 'heavy+third', 'count-2/3', 'count-2/3+1', 'all')
-HISTORY_SIZES = (4, 16, 24, 32, 33, 40, 64)
+HISTORY_SIZES = (4, 16, 24, 32, 40, 64)
 
 
 def mutate(ps, kind, p):
@@ -677,7 +698,7 @@ def _base_set(n, wp):
 def enum_related(tier):
     """two or three calls one after the other: a set A and a related set B (every mutation kind, at the first / last member), the
     SAME signers presented each time, in the orders A B, B A, A B A; fresh objects or the caller's one list updated in place"""
-    sizes = HISTORY_SIZES if tier == 'quick' else HISTORY_SIZES + (8, 12, 17, 25, 48, 100, 128)
+    sizes = HISTORY_SIZES if tier == 'quick' else HISTORY_SIZES + (8, 12, 17, 25, 33, 48, 100, 128)
     c = 0
     for n in sizes:
         for wp in ('ones', 'ramp'):
@@ -689,11 +710,13 @@ def enum_related(tier):
                         sg = pick_signers(a, mode, p)
                         for order in ('ab', 'ba', 'aba'):
                             c += 1
+                            if order == 'aba' and tier == 'quick' and (c // 3) % 2:
+                                continue
                             tag = f'rel/{n}/{wp}'
                             nform = ('list', 'same', 'tuple', 'list', 'gen')[c % 5]
                             steps = [hstep(tag, a if ch == 'a' else b, sg, f'{kind}/{p}/{mode}/{order}/{t}',
                                            note=('base set' if ch == 'a' else f'{kind}@{p}') + f', signers {mode}',
-                                           nform=nform if t else 'list', sform=('list', 'tuple', 'gen')[(c + t) % 3])
+                                           nform=nform if t else 'list', sform=('list', 'tuple', 'gen')[(c // 3 + t) % 3])
                                      for t, ch in enumerate(order)]
                             yield {'steps': steps}
 
@@ -760,7 +783,7 @@ def _outer_step(tag, ps, pattern, blk_tag, lazy, inner_step):
 def enum_nested(tier):
     """one call whose signature list (or validator list) is produced lazily by caller code that checks another block meanwhile:
     sizes x lazy form x relation of the nested call's set x nested signers x outer pattern; then the same outer call again, plainly"""
-    sizes = (3, 12, 24, 30, 36, 64) if tier == 'quick' else (1, 2, 3, 5, 12, 16, 24, 25, 30, 32, 36, 48, 64, 100, 128)
+    sizes = (3, 12, 24, 32, 40, 64) if tier == 'quick' else (1, 2, 3, 5, 12, 16, 24, 25, 30, 32, 36, 48, 64, 100, 128)
     c = 0
     for n in sizes:
         for lazy in LAZY_FORMS + ('nodes-gen',):
@@ -768,15 +791,17 @@ def enum_nested(tier):
                 for isg in INNER_SIGNERS:
                     for pattern in OUTER_PATTERNS:
                         c += 1
-                        wp = ('ones', 'ones', 'ramp')[c % 3]
+                        if tier == 'quick' and n >= 40 and c % 3:
+                            continue
+                        wp = ('ones', 'ones', 'ramp')[(c // 7) % 3]
                         tag = f'nest/{n}/{wp}'
                         ps = _base_set(n, wp)
                         bt = f'{lazy}/{rel}/{isg}/{pattern}'
                         outer_blk = _blk(f'{tag}/{bt}/o')
-                        inner = _inner_step(tag, ps, rel, isg, bt + '/i', same_blk_as=outer_blk if c % 4 == 0 else None)
+                        inner = _inner_step(tag, ps, rel, isg, bt + '/i', same_blk_as=outer_blk if (c // 3) % 4 == 0 else None)
                         outer = _outer_step(tag, ps, pattern, bt + '/o', lazy, inner)
                         steps = [outer]
-                        if c % 2:
+                        if (c // 3) % 2:
                             again = dict(outer, sform='list', nform='list', note='the outer call again, plain list')
                             again.pop('inner')
                             steps.append(again)
@@ -921,5 +946,5 @@ SUBCHECKS = [
     Sub('history-nested', check_history, enum=enum_nested, classify=classify_history, nontrivial=nontrivial_history,
         shards=(16, 32), note='a check made by caller code while an enclosing check reads its lazily produced arguments'),
     Sub('history-random', check_history, strategy=lambda tier: _history(), classify=classify_history,
-        nontrivial=nontrivial_history, n=(1200, 60000), shards=(16, 48)),
+        nontrivial=nontrivial_history, n=(500, 60000), shards=(16, 48)),
 ]
